@@ -28,7 +28,9 @@ impl Element {
 
 impl Hash for Element {
     fn hash<H: core::hash::Hasher>(&self, state: &mut H) {
-        self.inner.hash(state);
+        // Hash the canonical encoding: equal elements can have different
+        // internal curve points (the two members of a coset, any Z).
+        self.vartime_compress().0.hash(state);
     }
 }
 
@@ -123,7 +125,8 @@ impl Zero for Element {
     }
 
     fn is_zero(&self) -> bool {
-        self.inner.is_zero()
+        // Both coset members (0, 1) and (0, -1) represent the identity.
+        self.is_identity()
     }
 }
 
